@@ -16,7 +16,6 @@ import (
 	"net/netip"
 	"sync"
 	"syscall"
-	"testing/synctest"
 	"time"
 
 	"github.com/IrineSistiana/mosproxy/internal/testutils"
@@ -153,7 +152,7 @@ func (v *vRouter) gnetClient(s *gnetServer, remote, local netip.AddrPort) *gnetC
 		}
 	}
 	g := &gnetClient{c: c, loop: loop}
-	v.closers = append(v.closers, func() { g.Close(); synctest.Wait(); g.Stop() })
+	v.closers = append(v.closers, func() { g.Close(); wait(); g.Stop() })
 	return g
 }
 
@@ -229,10 +228,10 @@ func (v *vRouter) tlsClient(s *tcpServer, remote, local netip.AddrPort) *tlsClie
 	t.tc = tls.Client(sc.impl.Peer(), &tls.Config{InsecureSkipVerify: true, Time: func() time.Time { return time.Now().AddDate(30, 0, 0) }})
 	go func() {
 		if err := t.tc.Handshake(); err != nil {
-			t.hsErr = err
+			publish(func() { t.hsErr = err })
 			return
 		}
-		t.hsOK = true
+		publish(func() { t.hsOK = true })
 		buf := make([]byte, 70000)
 		for {
 			n, err := t.tc.Read(buf)
@@ -290,16 +289,17 @@ func vDoHRequest(h http.Handler, method string, wire []byte, remote string, muta
 	go func() {
 		defer func() {
 			if r := recover(); r != nil {
-				res.panicked = r
-				res.done = true
+				publish(func() { res.panicked, res.done = r, true })
 			}
 		}()
 		rec := httptest.NewRecorder()
 		h.ServeHTTP(rec, req)
-		res.status = rec.Code
-		res.body = append([]byte(nil), rec.Body.Bytes()...)
-		res.ctype = rec.Header().Get("Content-Type")
-		res.done = true
+		publish(func() {
+			res.status = rec.Code
+			res.body = append([]byte(nil), rec.Body.Bytes()...)
+			res.ctype = rec.Header().Get("Content-Type")
+			res.done = true
+		})
 	}()
 	return res
 }
@@ -327,8 +327,7 @@ func vFastDoHRequest(h *fasthttpHandler, method string, wire []byte, remote neti
 	go func() {
 		defer func() {
 			if r := recover(); r != nil {
-				res.panicked = r
-				res.done = true
+				publish(func() { res.panicked, res.done = r, true })
 			}
 		}()
 		var ctx fasthttp.RequestCtx
@@ -341,10 +340,12 @@ func vFastDoHRequest(h *fasthttpHandler, method string, wire []byte, remote neti
 			mutate(&ctx.Request)
 		}
 		h.HandleFastHTTP(&ctx)
-		res.status = ctx.Response.StatusCode()
-		res.body = append([]byte(nil), ctx.Response.Body()...)
-		res.ctype = string(ctx.Response.Header.ContentType())
-		res.done = true
+		publish(func() {
+			res.status = ctx.Response.StatusCode()
+			res.body = append([]byte(nil), ctx.Response.Body()...)
+			res.ctype = string(ctx.Response.Header.ContentType())
+			res.done = true
+		})
 	}()
 	return res
 }
@@ -373,7 +374,7 @@ func (v *vRouter) quicStream(s *quicServer, remote, local netip.AddrPort) *quicC
 		defer func() {
 			st.Close()
 			st.CancelRead(0)
-			q.done = true
+			publish(func() { q.done = true })
 		}()
 		s.handleStream(st, conn, remote, local)
 	}()
